@@ -121,3 +121,50 @@ Proof. exists (mk8 0 1 0 0), (mk8 0 0 0 (-(1))). split; vm_compute; reflexivity.
 Example C17_class_mhalf_inhabited : exists r rc : K8, kmul K8Ops r rc = k1 K8Ops /\ kmul K8Ops r r = kopp K8Ops (ki K8Ops).
 Proof. exists (mk8 0 0 0 (-(1))), (mk8 0 1 0 0). split; vm_compute; reflexivity. Qed.
 Close Scope Qc_scope.
+
+(* ---- D2: the measurement-metadata codec (key US targets RS ..., split into chunks) ---- *)
+From VF Require Import Base.Digits Codec.MetaChunks Codec.MetaChunksProofs.
+Open Scope Z_scope.
+
+Theorem C17_metadata_chunks_roundtrip : forall (size : nat) (rs : list record), (1 <= size)%nat ->
+  Forall (fun r => key_ok (fst r) = true /\ snd r <> []) rs ->
+  parse_chunks (chunks size (full_str rs)) = Some rs.
+Proof. exact metadata_chunks_roundtrip. Qed.
+Print Assumptions C17_metadata_chunks_roundtrip.
+
+(* whenever the serializer accepts, what it wrote parses back to what was measured, in <= 9 chunks of <= size characters *)
+Theorem C17_serialize_parse : forall (size : nat) rs cs, (1 <= size)%nat -> Forall (fun r => snd r <> []) rs ->
+  serialize_measurements size rs = SerOk cs ->
+  parse_chunks cs = Some rs /\ (length cs <= 9)%nat /\ forall c, In c cs -> (length c <= size)%nat.
+Proof. exact serialize_parse. Qed.
+Print Assumptions C17_serialize_parse.
+
+Theorem C17_dict_of_nodup : forall rs : list record, NoDup (map fst rs) -> dict_of rs = rs.
+Proof. exact dict_of_nodup. Qed.
+Print Assumptions C17_dict_of_nodup.
+
+Example C17_metadata_example :
+  (Forall (fun r : record => key_ok (fst r) = true /\ snd r <> []) [([109; 44; 49], [3; 10]%N); ([], [0]%N)])
+  /\ serialize_measurements 4 [([109; 44; 49], [3; 10]%N); ([], [0]%N)]
+     = SerOk [[109; 44; 49; 31]; [51; 44; 49; 48]; [30; 31; 48]].
+Proof. split; [repeat constructor; discriminate | reflexivity]. Qed.
+
+(* ---- D3: bit order ---- *)
+Theorem C17_endian_reverse_invol : forall v (n : nat), 0 <= v < 2 ^ Z.of_nat n -> le_to_big (le_to_big v n) n = v.
+Proof. exact endian_reverse_invol. Qed.
+Print Assumptions C17_endian_reverse_invol.
+
+Theorem C17_endian_reverse_mod : forall v (n : nat), le_to_big (le_to_big v n) n = v mod 2 ^ Z.of_nat n.
+Proof. exact endian_reverse_mod. Qed.
+Print Assumptions C17_endian_reverse_mod.
+
+(* the vendor's outcome integer b gives qubit targets[i] its bit number targets[i]; the Cirq row is in measurement order *)
+Theorem C17_result_bits_ok : forall (n : nat) (ts : list N) b, Forall (fun t => (N.to_nat t < n)%nat) ts ->
+  qpu_row n ts (le_to_big b n) = Some (map (fun t => Z.b2z (Z.testbit b (Z.of_N t))) ts)
+  /\ sim_row n ts (le_to_big b n) = Some (map (fun t => Z.b2z (Z.testbit b (Z.of_N t))) ts).
+Proof. exact result_bits_ok. Qed.
+Print Assumptions C17_result_bits_ok.
+
+Example C17_result_bits_example : qpu_row 3 [2; 0]%N (le_to_big 4 3) = Some [1; 0] /\ le_to_big 6 3 = 3.
+Proof. split; reflexivity. Qed.
+Close Scope Z_scope.
